@@ -153,6 +153,10 @@ func runLifeProfile(l *Life, profile string, n, steps int) {
 			p = SynProfile()
 		case "mergey":
 			p = MergeyProfile()
+		case "sweep":
+			l.light = true
+			l.SweepScenario(fmt.Sprintf("%s-%d", profile, i))
+			continue
 		case "wide":
 			p = WideProfile()
 			l.light = true
